@@ -69,6 +69,7 @@ func (c *c06Case) input() string {
 	for _, p := range c.pre {
 		fmt.Fprintf(&sb, " %d %d", p[0], p[1])
 	}
+	sb.WriteString(" blocked 1 2") // base path 2 lies below a regular file: no directory can be made there
 	fmt.Fprintf(&sb, " ops %d", len(c.ops))
 	for _, op := range c.ops {
 		switch op.kind {
@@ -266,6 +267,14 @@ func c06Pattern(root, pat string) (int, int) {
 	return pid, run
 }
 
+// c06PathOf is the base path with the given id: p0, p1, or (2) a path below the regular file "blocker".
+func c06PathOf(root string, pid int) string {
+	if pid == 2 {
+		return filepath.Join(root, "blocker", "sub")
+	}
+	return filepath.Join(root, fmt.Sprintf("p%d", pid))
+}
+
 func c06BasePid(root, base string) int {
 	switch base {
 	case "":
@@ -274,6 +283,8 @@ func c06BasePid(root, base string) int {
 		return 0
 	case filepath.Join(root, "p1"):
 		return 1
+	case c06PathOf(root, 2):
+		return 2
 	}
 	return -2
 }
@@ -286,6 +297,9 @@ func (c *c06Case) run() string {
 		return "PANIC workdir"
 	}
 	defer os.RemoveAll(root)
+	if err := os.WriteFile(filepath.Join(root, "blocker"), []byte("a regular file\n"), 0644); err != nil {
+		return "PANIC workdir"
+	}
 	today := time.Now().Format("20060102")
 	for _, p := range c.pre {
 		os.MkdirAll(filepath.Join(root, fmt.Sprintf("p%d", p[0]), today, fmt.Sprintf("%04d", p[1])), 0755)
@@ -345,7 +359,7 @@ func (c *c06Case) run() string {
 		case "Q":
 			cfg := dastard.WriteControlConfig{Request: op.req, WriteLJH22: op.l22, WriteOFF: op.off, WriteLJH3: op.l3}
 			if op.pid >= 0 {
-				cfg.Path = filepath.Join(root, fmt.Sprintf("p%d", op.pid))
+				cfg.Path = c06PathOf(root, op.pid)
 			}
 			var reply bool
 			mapLen := sc.VerifC06MapLen() // the map this request will be handed by the RPC layer
@@ -505,6 +519,11 @@ func c06Scripted(idx int) *c06Case {
 			{kind: "X"}, q("UNPAUSE", -1, false, false, false), {kind: "R"}, q("UNPAUSE", -1, false, false, false), {kind: "D", ch: 1, n: 2},
 			{kind: "B", nsamples: 24}, q("START", -1, true, false, false), {kind: "D", ch: 0, n: 3}, {kind: "X"}, {kind: "R"}, {kind: "R"},
 			q("START", -1, false, false, true), {kind: "B", nsamples: 16}, q("STOP", -1, false, false, false)}
+	case 5: // a START whose Path cannot be created is refused and must not change the remembered base path
+		c = &c06Case{idx: idx, nch: 1, npre: 3, nsamp: 8, proj: []bool{false}, trig: []bool{true}, nums: []int{1}}
+		c.ops = []c06Op{q("START", 2, true, false, false), q("START", -1, true, false, false), q("START", 0, true, false, false),
+			{kind: "D", ch: 0, n: 1}, q("STOP", -1, false, false, false), q("START", 2, false, false, true), {kind: "D", ch: 0, n: 2},
+			q("START", -1, false, false, true), {kind: "D", ch: 0, n: 3}, q("START", 2, true, false, false), q("STOP", -1, false, false, false)}
 	case 3: // a good map: accepted
 		c = &c06Case{idx: idx, nch: 3, npre: 3, nsamp: 8, proj: []bool{false, true, false}, trig: []bool{true, true, true},
 			nums: []int{3, 1, 2}}
@@ -522,7 +541,7 @@ func c06Scripted(idx int) *c06Case {
 }
 
 func genC06(r *Rng, tier string, idx int) *c06Case {
-	if idx < 5 {
+	if idx < 6 {
 		return c06Scripted(idx)
 	}
 	c := &c06Case{idx: idx}
@@ -687,8 +706,13 @@ func genC06(r *Rng, tier string, idx int) *c06Case {
 			default:
 				pid = r.Pick(-1, -1, 0, 1)
 			}
+			if r.Chance(9) { // a path below a regular file: the run directory cannot be made
+				pid = 2
+			}
 			addReq(c06ReqString(r, "START"), pid, l22, off, l3)
-			if !active && (l22 || off || l3) && (pid >= 0 || haveBase) { // a guess: OFF may still be refused
+			if pid == 2 {
+				// refused
+			} else if !active && (l22 || off || l3) && (pid >= 0 || haveBase) { // a guess: OFF may still be refused
 				active, paused, haveBase = true, false, true
 			}
 		case "STOP":
